@@ -338,6 +338,23 @@ func runC09(c *Ctx) {
 			}
 		}
 	}
+	// reader state at the end of A against column-sensitive starts of B: A ends with a line on
+	// which a container marker is followed by a tab (virtual padding left in the reader) and a leaf
+	// that never advances the reader itself (ATX heading, Setext underline, fence, thematic break,
+	// blank rest); B begins with 0-4 columns of indentation before every kind of block start
+	{
+		tails := []string{">\t# x", "> t\n>\t===", ">\t```\n>\t```", "-\t# x", "1.\t## y", ">\t***", "> a\n>\t", "-\tt\n\t===", ">\t> # z", "> >\t# z", "-\t-\t# w", ">\t#", ">  \t# x", "> \t# x", "*\t```\n\t```",
+			"> # x", "- # x", "# x", "t\n===", "```\nc\n```"}
+		starts := []string{"para", "- item", "> quote", "# h", "```\nf\n```", "1. o", "***", "<div>\nb\n</div>", "|a|\n|-|\n|b|", "t\n---", "    code", "+ p\n\n  q"}
+		for _, a := range tails {
+			for _, b := range starts {
+				for ind := 0; ind <= 4; ind++ {
+					bb := strings.Repeat(" ", ind) + strings.ReplaceAll(b, "\n", "\n"+strings.Repeat(" ", ind))
+					pairs = append(pairs, docItem{"padding-tail-pairs", append(append(append([]byte{}, a+"\n"...), 0xff), bb+"\n"...)})
+				}
+			}
+		}
+	}
 	// long closed prefixes: every filler length around 64..260 (quick) before a tail with loose
 	// lists and other per-line state
 	for _, fl := range longFillers {
